@@ -1802,6 +1802,18 @@ def a9(prog: Program, chk: Check) -> None:
     inplace_updates(prog, chk, "A9", floor=20)
 
 
+def a10(prog: Program, chk: Check) -> None:
+    chk.rule("A10", "no closure that outlives the loop iteration that made it reads a variable the loop rebinds: what it computes would depend on where the loop ended, not on the inputs it was made for (a default argument, a factory function or functools.partial binds "
+             "the value when the closure is made; a closure consumed within the iteration is fine). "
+             "Expected count on a correct tree is zero: a built-in example with two defective and "
+             "two accepted closures is judged on every run", floor=1)
+    from rules import latebinding
+    latebinding.self_check("A10")
+    n = latebinding.late_binding(prog, chk, "A10", modules=None)
+    chk.add("A10", prog.module("tempo"), f"{n} closures created in loops / comprehensions examined; "
+            f"built-in example judged as expected", True, "")
+
+
 def run(prog: Program, chk: Check) -> None:
     chk.explanation = (
         "Decides the structural ways in which state leaks in this code base: A1 methods "
@@ -1827,3 +1839,4 @@ def run(prog: Program, chk: Check) -> None:
     chk.call(a6b, prog, chk)
     chk.call(a8, prog, chk)
     chk.call(a9, prog, chk)
+    chk.call(a10, prog, chk)
